@@ -110,35 +110,19 @@ def insertByAddr (e : Entry) : List Entry → List Entry
 
 def sortByAddr (es : List Entry) : List Entry := es.foldr insertByAddr []
 
-/-! ## Programs without continuation lines inside block bodies -/
+/-! ## Valid trees -/
 
 mutual
-/-- every logical line the item occupies where it is written is one physical line -/
-def itemFlat : Item → Bool
-  | .plain p => p == 1
-  | .fault p _ => p == 1
-  | .call _ _ => true
-  | .rept _ b => bodyFlat b
-  | .irp _ _ b => bodyFlat b
-  | .irpc _ b => bodyFlat b
-  | .while_ _ b => bodyFlat b
-  | .incl _ _ => true
-def bodyFlat : Body → Bool
-  | .nil => true
-  | .cons i b => itemFlat i && bodyFlat b
-end
-
-mutual
-/-- well-formed for the position statement: every logical line occupies at least one physical line, and no
-REPT/IRP/IRPC/WHILE body (anywhere in the program, macro bodies and include files included) contains a continuation line -/
+/-- the tree describes a program: every logical line occupies at least one physical line (`phys` = 1 + number of
+continuation lines, Spec/Pos.lean) -/
 def itemWf : Item → Bool
   | .plain p => decide (1 ≤ p)
   | .fault p _ => decide (1 ≤ p)
   | .call _ b => bodyWf b
-  | .rept _ b => bodyFlat b && bodyWf b
-  | .irp _ _ b => bodyFlat b && bodyWf b
-  | .irpc _ b => bodyFlat b && bodyWf b
-  | .while_ _ b => bodyFlat b && bodyWf b
+  | .rept _ b => bodyWf b
+  | .irp _ _ b => bodyWf b
+  | .irpc _ b => bodyWf b
+  | .while_ _ b => bodyWf b
   | .incl _ b => bodyWf b
 def bodyWf : Body → Bool
   | .nil => true
